@@ -2,7 +2,7 @@
    opcode tables regenerated from vyper/evm/opcodes.py. *)
 From Coq Require Import ZArith List Bool String Lia.
 From Verif Require Import Base.PyInt C16.Asm C16.HexBytes C16.LoopsPrelude C16.PushProofs C16.AsmProofs C16.DecodeProofs
-  C16.Views C16.ViewsProofs C16.EvmOpcodes C16.GenOpcodes C16.PropsAsm.
+  C16.Views C16.ViewsProofs C16.AsmTextProofs C16.EvmOpcodes C16.GenOpcodes C16.PropsAsm.
 Import ListNotations.
 Open Scope list_scope.
 Open Scope Z_scope.
@@ -63,3 +63,20 @@ Theorem symbol_map_truthful : forall tbl push0 asm bs sm cm l off,
                     emit tbl push0 sm cm p = Ok bp /\ off = zlen bp.
 Proof. exact symbol_map_truthful_model. Qed.
 Print Assumptions symbol_map_truthful.
+
+(* `asm` / `asm_runtime`: on every well-formed, successfully assembled program the listing printer is total (its
+   `assert isinstance(item, int)` cannot fail, `int(item[4:])` cannot raise) and its PUSH grouping (in_push) is the
+   byte-level grouping: after each PUSHk mnemonic it prints exactly the k immediates that the bytes carry *)
+Theorem asm_listing_total : forall v asm bs sm cm nm nmc, In v evm_versions ->
+  assemble (opcode_table v) (has_push0 v) asm = Ok (bs, sm, cm) -> wf_asm (opcode_table v) asm = true ->
+  exists t, asm_text nm nmc asm = Ok t.
+Proof.
+  intros v asm bs sm cm nm nmc I A W.
+  assert (asm_names_ok (opcode_table v) = true) as N.
+  { assert (forallb (fun v => asm_names_ok (opcode_table v)) evm_versions = true) as H by (vm_compute; reflexivity).
+    rewrite forallb_forall in H. exact (H v I). }
+  apply assemble_inv in A as (sm0 & pc & C & Wk & _ & _). unfold wf_asm in W. rewrite C in W.
+  destruct (asm_text_total_model (opcode_table v) (has_push0 v) nm nmc N cm asm O [] 0 _ W Wk) as (t & E).
+  unfold asm_text. change (Z.of_nat 0) with 0 in E. rewrite E. cbn. eexists; reflexivity.
+Qed.
+Print Assumptions asm_listing_total.
